@@ -161,11 +161,18 @@ def _run_cases_job(args):
     prop = _W["prop"]
     st = Stats()
     for case in cases:
+        if _W.get("failcount", 0) >= 25:
+            # this tree is broken in a way that makes (nearly) every case fail: stop exploring, the failures collected
+            # so far are reported; on a tree where the property holds this never triggers
+            st.extra["cases_skipped_after_25_failures_in_a_worker"] += 1
+            continue
         try:
             out = prop.check_case(case, get_ex)
         except Exception:
             out = Outcome(failure=Failure("harness-exception", traceback.format_exc()))
         st.record(case, out)
+        if out.failure is not None:
+            _W["failcount"] = _W.get("failcount", 0) + 1 + len(out.failures or [])
     return st
 
 
